@@ -2,8 +2,10 @@
 # usage: seedtest.sh <patch.diff> <prop> [<prop> ...]   -- apply a seeded change to /repo, run quick checks, undo
 patch=$1; shift
 git -C /repo apply "$patch" || exit 9
+bk=$(mktemp -d); cp -r /verif/evidence "$bk/"
 for p in "$@"; do
   /verif/check $p --tier quick 2>/dev/null | grep -E "VIOLATION|KNOWN" | cut -c1-200; echo "  -> $p rc=${PIPESTATUS[0]}"
 done
 git -C /repo checkout -- .
+rm -rf /verif/evidence; cp -r "$bk/evidence" /verif/evidence; rm -rf "$bk"
 /venv/bin/python /verif/harness/translate.py >/dev/null
